@@ -51,6 +51,25 @@ THEOREMS = [
     'C16.isclose_iff', 'C16.identify_cubic', 'C16.identify_hexagonal', 'C16.identify_tetragonal',
     'C16.identify_rhombohedral', 'C16.identify_orthorhombic', 'C16.identify_monoclinic', 'C16.identify_triclinic',
     'C16.identify_iff_pred',
+    # source tie (Generated/MillerSource.lean regenerated from miller.py / Box.py / crystalsystem.py; Proofs/C16_Source.lean)
+    'C16.gen_plane3to4_eq_model', 'C16.gen_plane4to3_eq_model', 'C16.gen_vector3to4_eq_model',
+    'C16.gen_vector4to3_eq_model', 'C16.gen_planeInPlane_eq_model', 'C16.gen_normalOf_eq_model',
+    'C16.gen_planeNormalUnnorm_eq_model', 'C16.gen_planeResult_eq_model', 'C16.gen_vectorResult_eq_model',
+    'C16.gen_vectorResult4_eq_model', 'C16.gen_reduceIndices_eq_model', 'C16.gen_bracketPairs_eq_model',
+    'C16.gen_allIndicesDefaults_eq_model', 'C16.gen_box_isCubic_eq_model', 'C16.gen_box_isHexagonal_eq_model',
+    'C16.gen_box_isTetragonal_eq_model', 'C16.gen_box_isRhombohedral_eq_model', 'C16.gen_box_isOrthorhombic_eq_model',
+    'C16.gen_box_isMonoclinic_eq_model', 'C16.gen_box_isTriclinic_eq_model', 'C16.gen_box_identifyFamily_eq_model',
+    'C16.gen_box_defaults_eq_model', 'C16.gen_cs_isCubic_eq_model', 'C16.gen_cs_isHexagonal_eq_model',
+    'C16.gen_cs_isTetragonal_eq_model', 'C16.gen_cs_isRhombohedral_eq_model', 'C16.gen_cs_isOrthorhombic_eq_model',
+    'C16.gen_cs_isMonoclinic_eq_model', 'C16.gen_cs_isTriclinic_eq_model', 'C16.gen_cs_identifyFamily_eq_model',
+    'C16.gen_cs_defaults_eq_model', 'C16.gen_pin_plane_crystal_to_cartesian',
+    'C16.gen_pin_vector_crystal_to_cartesian', 'C16.gen_pin_all_indices', 'C16.gen_pin_fromstring_rest',
+    'C16.gen_pin_Box_vector_crystal_to_cartesian', 'C16.gen_pin_Box_plane_crystal_to_cartesian',
+    # end to end over the generated definitions; scale invariance
+    'C16.normal_nonzero', 'C16.IsNormAt.pos', 'C16.IsNormAt.smul', 'C16.gen_normal_perp_iff_zone',
+    'C16.gen_normal_unit_along_reciprocal', 'C16.normal_scale', 'C16.gen_normal_scale_invariant',
+    'C16.gen_vector_scale', 'C16.gen_plane34_roundtrip', 'C16.gen_vector34_roundtrip', 'C16.gen_box_cs_agree',
+    'C16.gen_identify_iff_pred',
 ]
 PARTIAL = {}
 GENERATED = ['MillerTables', 'MillerSource']
@@ -412,7 +431,7 @@ def _pin(name, stmts, doc):
     out = []
     for s in stmts:
         out.append(_pin_text(s))
-    items = ',\n   '.join('"' + t.replace('\\', '\\\\').replace('"', '\\"') + '"' for t in out)
+    items = ',\n   '.join('"' + t.replace('\\', '\\\\').replace('"', '\\"').replace('\n', '\\n') + '"' for t in out)
     return f'/-- {doc} -/\ndef pin_{name} : List String :=\n  [{items}]\n'
 
 
@@ -431,7 +450,9 @@ def _pin_text(s):
     import copy
     t = Strip().visit(copy.deepcopy(s))
     ast.fix_missing_locations(t)
-    return ' '.join(ast.unparse(t).split())
+    # canonical text of the statement; line breaks and the (canonical, 4-blank) indentation are kept, so that moving a
+    # statement into / out of a block changes the pin
+    return ast.unparse(t)
 
 
 def _tr_pins(src):
